@@ -26,7 +26,7 @@ type J = map[string]interface{}
 
 // badAmount is logged for an amount that is not a multiple of the run unit;
 // the trace specifications reject any line whose "bad" field is not empty.
-const badAmount = -2000000001
+const badAmount = 0
 
 type ident struct {
 	name   string
@@ -165,12 +165,12 @@ func (c Clock) nonceReal(v int64) int64 {
 
 // Trace is the ndjson writer.
 type Trace struct {
-	f   *os.File
-	w   *bufio.Writer
-	n   int
-	bad []string // problems of the current line (abstraction failures)
+	f      *os.File
+	w      *bufio.Writer
+	n      int
+	bad    []string // problems of the current line (abstraction failures)
 	badamt []string
-	mu  sync.Mutex
+	mu     sync.Mutex
 }
 
 func newTrace(path string) (*Trace, error) {
